@@ -137,3 +137,20 @@ Definition sealed_info (info : seginfo) (istart mn mx : N) : seginfo :=
   {| si_id := si_id info; si_base := si_base info; si_min := mn; si_max := mx;
      si_codec := si_codec info; si_index_start := istart; si_sealed := true;
      si_size_limit := si_size_limit info |}.
+
+(* ------------------------------------------------------------------ *)
+(* the whole link, as an invariant of a segment file's life            *)
+(* bs: the L1 batches committed so far; f: the L2 file; w1 / w2: the L1 / L2
+   writers; file: the bytes on the disk *)
+Record linked (info : seginfo) (bs : list batch) (f : dfile) (w1 : wstate) (w2 : wseg)
+              (file : bytes) : Prop := {
+  lk_rep  : rep info bs f;
+  lk_ok   : encs_ok (df_ents f);
+  lk_len  : len (image info bs) < two32;
+  lk_w1   : w1 = wst info (cstate info bs);
+  lk_w2   : rep_w w1 w2;
+  lk_file : exists k, file = image info bs ++ zeros k }.
+
+(* the file Filer.Create leaves (Wal/Model.v apply_act ACreate) *)
+Definition created (size : N) : dfile :=
+  {| df_ents := []; df_end := 0; df_seal := 0; df_pend := None; df_dir := false; df_size := size |}.
